@@ -940,7 +940,31 @@ def fam_dbgf(tier, seed):
     return cases
 
 
+def fam_probe11(tier, seed):
+    """C11 probe declarations: rule-INVALID fields that lie above bit N-1 of an arbitrary-int base but inside its
+    storage integer. A correct macro rejects every one of them (then nothing runs); if one is accepted the C11
+    monitor runs on it and shows the hidden state."""
+    from . import rejects
+    cases = []
+    n = 0
+    for t in rejects.twins(tier, seed):
+        neg = t["neg"]
+        if t["rule"] != "beyond-base-width" or neg["base"] in NATIVE or neg.get("base_text"):
+            continue
+        top = 0
+        for f in neg["fields"]:
+            k = f["array"]["count"] if f["array"] else 1
+            top = max(top, max(field_positions(f, k - 1)))
+        if top >= neg["storage"]:
+            continue
+        c = dict(neg, id="pb_%04d" % n, family="probe11", tags=["probe-beyond-width", t["shape"]], seeded=False)
+        n += 1
+        cases.append(c)
+    return cases
+
+
 FAMILIES = {
+    "probe11": fam_probe11,
     "bld": fam_bld,
     "dbgf": fam_dbgf,
     "single": fam_single,
